@@ -3,7 +3,7 @@
 
 usage: tools/run_seeded.py import <worktree-out-dir>...     copy a confirmed seed into /verif/seeded/<id>/
 
-       tools/run_seeded.py run [--all-checks] [--tier quick] <id>...   apply to /repo, run checks, revert
+       tools/run_seeded.py run [--all-checks | --checks=C01,C09] <id>...   apply to /repo, run checks (default: the seed's own property), revert
        tools/run_seeded.py table                                 rewrite /verif/seeded/RESULTS.md
 """
 import json, os, shutil, subprocess, sys, time
@@ -46,7 +46,7 @@ def do_import(dirs):
         print(f"{sid}: imported")
 
 
-def do_run(ids, all_checks, tier):
+def do_run(ids, all_checks, tier, only=None):
     is_git = os.path.isdir(os.path.join(REPO, ".git")) or os.path.isfile(os.path.join(REPO, ".git"))
     if is_git and sh(f"git -C {REPO} status --porcelain --untracked-files=no")[1].strip():
         print("refusing: the repo has uncommitted changes"); sys.exit(2)
@@ -60,7 +60,7 @@ def do_run(ids, all_checks, tier):
         if rc != 0:
             print(f"{sid}: patch does not apply: {out[-200:]}"); continue
         try:
-            checks = ALL if all_checks else [target]
+            checks = only if only else (ALL if all_checks else [target])
             for p in checks:
                 t0 = time.time()
                 rc, out = sh(f"{ROOT}/bin/check {p} --tier {tier}", cwd=ROOT)
@@ -108,7 +108,8 @@ if __name__ == "__main__":
         args = sys.argv[2:]
         allc = "--all-checks" in args
         tier = "quick"
+        only = next((a.split("=", 1)[1].split(",") for a in args if a.startswith("--checks=")), None)
         ids = [a for a in args if not a.startswith("--")]
-        do_run(ids, allc, tier)
+        do_run(ids, allc, tier, only)
     elif cmd == "table":
         do_table()
